@@ -158,6 +158,12 @@ var rekeyTargets = []string{"-1", "0", "1", "2", "7", "8", "9", "1000", "2147483
 // MutateJSON applies nops operators to doc. nBases is the number of bases of the key (for
 // index re-keying). It returns the mutated document and a description of what was done.
 func MutateJSON(doc []byte, nops int, nBases int, ch Chooser) ([]byte, []string, error) {
+	return MutateJSONWith(doc, nops, nBases, ch, nil)
+}
+
+// MutateJSONWith: as MutateJSON; hostile lists integers with a meaning for the receiver (the modulus
+// and its multiples: values without an inverse) that integer mutations may substitute.
+func MutateJSONWith(doc []byte, nops int, nBases int, ch Chooser, hostile []*big.Int) ([]byte, []string, error) {
 	tree, err := ParseJSON(doc)
 	if err != nil {
 		return nil, nil, err
@@ -270,7 +276,14 @@ func MutateJSON(doc []byte, nops int, nBases int, ch Chooser) ([]byte, []string,
 				v := new(big.Int).SetBytes(raw)
 				var nv any
 				what := ""
-				switch ch.Intn(9, "int") {
+				nint := 9
+				if len(hostile) > 0 {
+					nint = 11 // two of eleven choices substitute a hostile constant
+				}
+				switch k := ch.Intn(nint, "int"); k {
+				case 9, 10:
+					h := hostile[ch.Intn(len(hostile), "hostile")]
+					nv, what = b64(h), "hostile-constant("+strconv.Itoa(h.BitLen())+" bits)"
 				case 0:
 					nv, what = "", "empty"
 				case 1:
